@@ -20,6 +20,57 @@ NOTE = ("Trusted: numpy.unique / intersect1d / DataFrame.apply(axis=1) / fillna 
 SER_SITES = [("pc", 1), ("pc_joint", 1), ("stdpc_joint", 1)]
 
 
+def _installed_major(package):
+    """Major version of a package of the repository's environment, read from its dist-info directory name (nothing is imported)."""
+    import glob
+    import os
+    import re
+    for base in ("/venv/lib",):
+        for d in glob.glob(os.path.join(base, "python*", "site-packages", package + "-*.dist-info")):
+            m = re.match(re.escape(package) + r"-(\d+)\.", os.path.basename(d))
+            if m:
+                return int(m.group(1))
+    return None
+
+
+def _joint_key_missing_cells(r):
+    """The statement counts a missing cell as one distinct (empty) value, and pc_joint has to agree with pc on the selected columns.  pc fills
+    missing cells before it serialises a row.  pc_joint writes the key with sep.join(row.astype(str)): library fact - up to pandas 2
+    Series.astype(str) turns a missing cell into the text 'nan'; from pandas 3 on it leaves it missing, and str.join raises TypeError on the
+    float.  Decided from the source (is the frame filled before the rows are joined, or are the cells stringified one by one?) and from the
+    version of pandas installed in the repository's environment."""
+    rep = r.rep
+    major = _installed_major("pandas")
+    q = M + "pc_joint"
+    s = r.A.summary(q)
+    seen = set()
+    for e in s.events_of("call"):
+        t = strip(e["term"])
+        f = strip(t[1])
+        if not (head(f) == "attr" and f[2] in ("apply", "map", "agg")):
+            continue
+        recv_filled = any(head(x) == "attr" and x[2] in ("fillna", "dropna") for x in walk(("t", f[1])))
+        for x in walk(("t", t[2] + tuple(v for _, v in t[3]))):
+            if head(x) == "call" and head(strip(x[1])) == "attr" and strip(x[1])[2] == "join" and len(x[2]) == 1:
+                a = strip(x[2][0])
+                if head(a) == "call" and head(strip(a[1])) == "attr" and strip(a[1])[2] == "astype" and a[2] and strip(a[2][0]) == ("glob", "builtins.str") \
+                        and any(head(y) == "lparam" for y in walk(("t", strip(a[1])[1]))):
+                    seen.add((getattr(e.node, "lineno", 0), recv_filled, show(x, 60), e.node))
+    if not seen:
+        return
+    if major is None:
+        rep.require(False, f"{q}: the joint key is written with join(row.astype(str)); whether a missing cell survives that depends on the pandas version, which could not be read from the environment; cannot decide [C02-NA]")
+        return
+    bad = sorted((s_ for s_ in seen if not s_[1]), key=lambda s_: s_[0])
+    ok = not bad or major < 3
+    at = (bad or sorted(seen, key=lambda s_: s_[0]))[0]
+    # one finding per function: the same idiom on its other lines is the same defect
+    rep.ob("C02-NA", q, ok, "a row with a missing cell gets a joint key (missing cells count as one distinct empty value, as in pc)", where_of(r.P, s.func, at[3]),
+           expected="cells filled or stringified one by one before the join (df[on].fillna('') ..., or sep.join(map(str, row)))",
+           found="filled / stringified" if ok else f"{at[2]} on unfilled rows under pandas {major} (line{'s' if len(bad) > 1 else ''} {', '.join(str(b[0]) for b in bad)}): astype(str) leaves a missing cell missing, str.join raises TypeError",
+           key="joint key of rows with missing cells", lint=True)
+
+
 def _rules(r, pre, purity):
     rep = r.rep
     rep.explanation = ("pc_n, both paths of pc, pc_joint and the tuple converter were reduced to normal forms from the current source and compared with "
@@ -60,6 +111,8 @@ def _rules(r, pre, purity):
                     rep.ob(pre + "C02-NA", q, False, "rows with a missing cell take part in the count like any other row", where_of(r.P, s_cur.func, e.node),
                            expected="row-wise serialisation after fillna, or value_counts / groupby with dropna=False", found=show(t, 120), key=f"{f[2]} drops rows with missing cells", lint=True)
 
+    if not pre:
+        _joint_key_missing_cells(r)
     check_no_dropping(r, pre + "C02-NA", [M + "pc", M + "pc_joint", "pyrepseq.util.convert_tuple_to_dataframe_if_necessary"], "every element (row) of the sample takes part in the count")
     check_against_spec(r, pre + "C02-RF", "pc_n", "pc_n(n) == sum n_i(n_i - 1) / (N (N - 1))", vec=vec_with_param0)
     check_against_spec(r, pre + "C02-RF", "pc", "pc one-sample == coinciding ordered pairs / N(N-1); two-sample == coinciding cross pairs / (N1 N2); tables serialised row-wise", vec=is_vec)
